@@ -172,6 +172,12 @@ pub fn dec_stream_case(bytes: &[u8], expect: Option<&[i32]>, extra: &[(&str, Str
     obj(&f)
 }
 
+/// A file the encoder produced together with its input and options, for the model of the ENCODER
+/// (Coq Enc.enc_frame): the model must reproduce the frame bytes (kind enc_stream).
+pub fn enc_stream_case(bytes: &[u8], pcm: &[i32], cfg_json: String) -> String {
+    obj(&[("t", esc("case")), ("kind", esc("enc_stream")), ("profile", esc(profile())), ("src", esc("encoder")), ("bytes", esc(&hex(bytes))), ("expect", ints(pcm)), ("cfg", cfg_json)])
+}
+
 #[derive(Clone, Debug, PartialEq)]
 pub struct SubsetFrame {
     pub samples: Vec<i32>,
